@@ -51,6 +51,7 @@ def _worker(args):
     t0 = time.time()
     res = verify.verify_function(I, c, fi)
     out["has_ensures"] = bool(c.ensures) and not c.notes.startswith("never-returns")
+    out["shape"] = getattr(res, "shape", None)
     out.update(paths=res.paths, outcomes=res.outcomes, error=res.error, sha=res.sha, loc=res.loc,
                inlined=sorted(res.inlined), used=sorted(res.used_contracts), drops=sorted(res.drops), gen_seconds=res.seconds)
     # vacuity: requires must be satisfiable
@@ -315,6 +316,22 @@ def main(argv=None):
     all_obs = []
     errors = []
     crashes = []
+    # loop invariants are keyed by loop ordinal: if the loops of a function are no longer the ones the sidecar was written
+    # for, a failing obligation of that function says nothing about the property -- it is reported as undecided
+    try:
+        shapes = json.load(open(os.path.join(ROOT, "contracts", "SHAPES.json")))
+    except Exception:
+        shapes = {}
+    for r in results:
+        want = shapes.get(r["key"].split("@")[0])
+        if want is not None and r.get("shape") is not None and want != r["shape"]:
+            c_ = DB.contracts.get(r["key"]) or DB.variants.get(r["key"])
+            if c_ is not None and c_.loops:
+                for o in r["obligations"]:
+                    if o["status"] == "sat":
+                        o["status"] = "unknown"
+                        o["error"] = "the loops of %s changed (%s -> %s): its sidecar loop invariants no longer apply; re-annotate" % (
+                            r["key"], want, r["shape"])
     for r in results:
         if r["error"]:
             (crashes if r["error"].startswith("crash") else errors).append((r["key"], r["error"]))
